@@ -1,17 +1,17 @@
-SPECIFICATION SpecStr
+SPECIFICATION SpecLists
 CONSTANTS
   Bug = ""
-  N0 = 0
-  N1 = 0
-  N2 = 0
-  L1 = 0
-  L2 = 0
+  N0 = 3
+  N1 = 1
+  N2 = 1
+  L1 = 1
+  L2 = 1
   MaxArgs = 0
   Fns = {}
   Rich = FALSE
-  TextLen = 4
+  TextLen = 0
   Chars = {}
   IntParts = {}
   Sample = 1
-INVARIANTS InvStrRoundTrip
+INVARIANTS InvTextRoundTrip
 CHECK_DEADLOCK FALSE
